@@ -105,6 +105,10 @@ static const char *S_LFA =
 "  container pc {presence \"yes\"; leaf m {type string; mandatory true;}}\n"
 "  choice ch {default c2; case c1 {leaf c1a {type string;} leaf c1b {type string;}} case c2 {leaf c2a {type uint8; default 7;}} leaf c3 {type empty;}}\n"
 "  leaf wl {when \"../a = 'on'\"; type string;}\n"
+"  leaf wlr {when \"../a = 'on'\"; type leafref {path \"../sl\";}}\n"
+"  leaf wun {when \"../a = 'on'\"; type union {type leafref {path \"../sl\";} type string {length \"2..4\";}}}\n"
+"  leaf wii {when \"../a = 'on'\"; type instance-identifier;}\n"
+"  leaf-list wll {when \"../a = 'on'\"; type leafref {path \"../sls\";}}\n"
 "  leaf ml {must \". != ../a\"; type string;}\n"
 "  anydata ad;\n"
 "  anyxml ax;\n"
